@@ -113,7 +113,7 @@ def ground_truth(code, blocks):
     for b, e, ss in blocks:
         ins = [i for i in insts if b <= i.offset < e]
         if not ins:
-            continue
+            return "block %d..%d holds no instruction of the stream" % (b, e)
         last = ins[-1]
         got = tuple(first.get(t, t) for t in ss)
         if tuple(succ[last.offset]) != got:
